@@ -81,7 +81,7 @@ def io1(ctx, prog, cfg):
 
 def io2(ctx, prog, cfg):
     shapes.must_match(ctx, "IO2", prog, W + "write",
-                      [r"call CircularBuffer::extend_from_slice\(self, src\)", r"call <\[T\]>::len\(src\)", r"return Result::Ok\{0: <\[T\]>::len\(src\)\}"], cfg,
+                      [r"call CircularBuffer::extend_from_slice\(self, src\)", r"return Result::Ok\{0: <\[T\]>::len\(src\)\}"], cfg,
                       "extend_from_slice(self, src); Ok(src.len())",
                       "`write` does not hand the whole, unmodified input to extend_from_slice exactly once and report `src.len()`")
     shapes.must_match(ctx, "IO2", prog, W + "flush", [r"return Result::Ok\{0: tuple::\{\}\}"], cfg, "Ok(())", "`flush` does something other than returning Ok(())")
@@ -127,7 +127,7 @@ def io3(ctx, prog, cfg):
     f = ctx.need_fn(prog, BR + "fill_buf", "IO3")
     if f is not None:
         shapes.must_match(ctx, "IO3", prog, f.short,
-                          [r"call CircularBuffer::as_slices\(self\)", r"call <\[T\]>::is_empty\(%s\)" % front, r"guard <\[T\]>::is_empty\(%s\)" % front,
+                          [r"call CircularBuffer::as_slices\(self\)", r"guard <\[T\]>::is_empty\(%s\)" % front,
                            r"return Result::Ok\{0: %s\}" % front, r"return Result::Ok\{0: %s\}" % back], cfg,
                           "one as_slices(); branch on front.is_empty()", "`fill_buf` does not choose between the two results of one as_slices() by front.is_empty()", guards=True)
         G = guards.Guards(f)
@@ -152,6 +152,5 @@ def io3(ctx, prog, cfg):
 
 def io4(ctx, prog, cfg):
     shapes.must_match(ctx, "IO4", prog, BR + "consume",
-                      [r"call core::cmp::min\(amt, \(\*self\)\.size\)",
-                       r"call CircularBuffer::drain\(self, RangeTo::RangeTo\{end: core::cmp::min\(amt, \(\*self\)\.size\)\}\)", r"return const"], cfg,
+                      [r"call CircularBuffer::drain\(self, RangeTo::RangeTo\{end: core::cmp::min\(\(\*self\)\.size, amt\)\}\)", r"return const"], cfg,
                       "drain(..min(amt, len))", "`consume` is not `self.drain(..min(amt, self.len()))`: it removes a different number of bytes or can hit the range panic")
